@@ -16,6 +16,10 @@ pub enum Op {
     InsertLogical(Vec<usize>),
     AddJustification(usize, Vec<usize>),
     Retract(usize),
+    /// one rule firing whose action emits: insert a new logical fact with premise a, then retract a
+    FiringDeriveThenRetract(usize),
+    /// one rule firing whose action emits: retract a, retract a again (fails: already gone), retract b
+    FiringRetractTwiceThenOther(usize, usize),
 }
 
 #[derive(Clone)]
@@ -34,6 +38,8 @@ pub struct Sys {
     max_facts: usize,
     pair_premises: bool,
     addjust_pairs: bool,
+    /// Some = the engine has a rule whose action replays this script (several results in one firing)
+    script: Option<std::sync::Arc<std::sync::Mutex<Vec<rust_rule_engine::rete::ActionResult>>>>,
 }
 
 impl Sys {
@@ -47,7 +53,48 @@ impl Sys {
             max_facts,
             pair_premises,
             addjust_pairs,
+            script: None,
         }
+    }
+    pub fn with_rule_firings(mut self) -> Self {
+        use rust_rule_engine::rete::network::{ReteUlNode, TypedReteUlRule};
+        use rust_rule_engine::rete::AlphaNode;
+        let script: std::sync::Arc<std::sync::Mutex<Vec<rust_rule_engine::rete::ActionResult>>> = std::sync::Arc::new(std::sync::Mutex::new(Vec::new()));
+        let s2 = script.clone();
+        self.eng.add_rule(
+            TypedReteUlRule {
+                name: "Go".to_string(),
+                node: ReteUlNode::UlAlpha(AlphaNode { field: "G.v".to_string(), operator: ">=".to_string(), value: "0".to_string() }),
+                priority: 0,
+                no_loop: true,
+                action: std::sync::Arc::new(move |_f: &mut TypedFacts, results: &mut rust_rule_engine::rete::ActionResults| {
+                    for r in s2.lock().unwrap().drain(..) {
+                        results.add(r);
+                    }
+                }),
+            },
+            vec!["G".to_string()],
+        );
+        self.script = Some(script);
+        self
+    }
+    /// one firing of the scripted rule: a trigger fact is inserted, fire_all runs the action once, the trigger is removed
+    fn fire_script(&mut self, items: Vec<rust_rule_engine::rete::ActionResult>) -> Result<(), Mismatch> {
+        *self.script.as_ref().unwrap().lock().unwrap() = items;
+        // the scripted rule is no-loop (it would otherwise be re-activated by its own effects): clear its fired flag
+        self.eng.reset();
+        let mut d = TypedFacts::new();
+        d.set("v", 0i64);
+        let g = self.eng.insert("G".to_string(), d);
+        let fired = self.eng.fire_all();
+        let _ = self.eng.retract(g);
+        if fired != vec!["Go".to_string()] {
+            return Err(Mismatch::new("scripted_rule_did_not_fire_once", format!("fire_all returned {:?}", fired)));
+        }
+        if !self.script.as_ref().unwrap().lock().unwrap().is_empty() {
+            return Err(Mismatch::new("scripted_rule_did_not_fire_once", "the action did not run".to_string()));
+        }
+        Ok(())
     }
     fn live(&self) -> Vec<usize> {
         (0..self.facts.len()).filter(|&i| self.present[i]).collect()
@@ -147,7 +194,7 @@ impl Sys {
             }
         }
         // an operation that is not a retraction removes nothing
-        if !matches!(op, Op::Retract(_)) {
+        if !matches!(op, Op::Retract(_) | Op::FiringDeriveThenRetract(_) | Op::FiringRetractTwiceThenOther(..)) {
             for i in 0..before.len() {
                 if before[i] && !obs[i] {
                     return Err(Mismatch::new("non_retraction_removed_fact", format!("{:?} removed fact #{}", op, i)));
@@ -203,6 +250,20 @@ impl System for Sys {
         for &h in &live {
             ops.push(Op::Retract(h));
         }
+        if self.script.is_some() {
+            if self.facts.len() < self.max_facts {
+                for &a in &live {
+                    ops.push(Op::FiringDeriveThenRetract(a));
+                }
+            }
+            for &a in &live {
+                for &b in &live {
+                    if a != b {
+                        ops.push(Op::FiringRetractTwiceThenOther(a, b));
+                    }
+                }
+            }
+        }
         for &h in &live {
             // explicit facts may receive logical justifications too: they must stay until retracted explicitly
             for s in subsets(&live, self.addjust_pairs, Some(h)) {
@@ -245,6 +306,31 @@ impl System for Sys {
                 self.tms.add_logical_justification(self.handles[*h], rule.to_string(), ph);
                 self.facts[*h].justs.push(p.clone());
             }
+            Op::FiringDeriveThenRetract(a) => {
+                use rust_rule_engine::rete::ActionResult;
+                let n = self.facts.len();
+                let known: Vec<FactHandle> = self.eng.working_memory().get_all_handles();
+                let ha = self.handles[*a];
+                self.fire_script(vec![ActionResult::InsertLogicalFact { fact_type: "T".to_string(), data: Sys::data(n), rule_name: "r".to_string(), premises: vec![ha] }, ActionResult::Retract(ha)])?;
+                // the derived fact existed for a moment: its handle is whatever the engine issued (it may already be gone)
+                let newh: Vec<FactHandle> = self.eng.working_memory().get_all_handles().into_iter().filter(|h| !known.contains(h) && !self.handles.contains(h)).collect();
+                let h = newh.first().copied().unwrap_or_else(|| FactHandle::new(1_000_000 + n as u64));
+                self.tms.add_logical_justification(h, "r".to_string(), vec![ha]);
+                self.handles.push(h);
+                self.facts.push(MFact { explicit: false, directly_retracted: false, justs: vec![vec![*a]] });
+                self.facts[*a].directly_retracted = true;
+                let _ = self.tms.retract_with_cascade(ha);
+            }
+            Op::FiringRetractTwiceThenOther(a, b) => {
+                use rust_rule_engine::rete::ActionResult;
+                let (ha, hb) = (self.handles[*a], self.handles[*b]);
+                self.fire_script(vec![ActionResult::Retract(ha), ActionResult::Retract(ha), ActionResult::Retract(hb)])?;
+                self.facts[*a].directly_retracted = true;
+                let _ = self.tms.retract_with_cascade(ha);
+                // b may have been cascaded out with a: retracting it then fails, which is fine; otherwise it is retracted
+                self.facts[*b].directly_retracted = true;
+                let _ = self.tms.retract_with_cascade(hb);
+            }
             Op::Retract(h) => {
                 let r = self.eng.retract(self.handles[*h]);
                 if let Err(e) = r {
@@ -265,7 +351,7 @@ impl System for Sys {
             }
         }
         let obs = self.observe();
-        if obs.len() > before.len() && !obs[obs.len() - 1] {
+        if matches!(op, Op::InsertExplicit | Op::InsertLogical(_)) && obs.len() > before.len() && !obs[obs.len() - 1] {
             return Err(Mismatch::new("inserted_fact_absent", "a freshly inserted fact is not in working memory".to_string()));
         }
         self.check_state(&before, op, &obs)?;
@@ -283,6 +369,7 @@ impl System for Sys {
             Op::InsertLogical(_) => "insert_logical_2",
             Op::AddJustification(..) => "add_justification",
             Op::Retract(_) => "retract",
+            Op::FiringDeriveThenRetract(_) | Op::FiringRetractTwiceThenOther(..) => "rule_firing_with_several_results",
         }
         .to_string()
     }
@@ -316,6 +403,16 @@ pub fn run(opts: &Opts) -> Vec<Report> {
         cfg.ctx = json!({"max_facts": 5, "pair_premises": false, "addjust_pairs": false});
         cfg.expected_letters = ["insert_explicit", "insert_logical_1", "add_justification", "retract"].iter().map(|s| s.to_string()).collect();
         out.push(explore::explore(&|| Sys::new(5, false, false), &cfg));
+    }
+    // (a') the same through rule firings whose action emits several results at once
+    if crate::props::wants(opts, "tms_rule_firings") {
+        let depth = if opts.tier == Tier::Quick { 7 } else { 8 };
+        let mut cfg = Config::new("tms_rule_firings", depth);
+        cfg.ctx = json!({"max_facts": 5, "rule_firings": true});
+        cfg.expected_letters = ["insert_explicit", "insert_logical_1", "retract", "rule_firing_with_several_results"].iter().map(|s| s.to_string()).collect();
+        let mut r = explore::explore(&|| Sys::new(5, false, false).with_rule_firings(), &cfg);
+        r.bound = format!("all histories of length <= {} over insert_explicit / insert_logical(one premise) / add_justification / retract / a rule firing that derives a fact from a and retracts a / a rule firing that retracts a, retracts a again and retracts b; <= 5 facts", depth);
+        out.push(r);
     }
     // (c) families with up to 7 facts to depth 10: restricted alphabet (no second justifications in
     // quick; pairs only in insert) — every retraction order of every shape of <= 7 facts
@@ -361,6 +458,7 @@ pub fn replay(case: &serde_json::Value) -> crate::props::ReplayResult {
     let sub = case["sub"].as_str().unwrap_or("tms_full").to_string();
     let r = match sub.as_str() {
         "tms_single" => explore::replay(&|| Sys::new(5, false, false), &ch),
+        "tms_rule_firings" => explore::replay(&|| Sys::new(5, false, false).with_rule_firings(), &ch),
         "tms_7facts" => explore::replay(&|| SysNoAdd(Sys::new(7, false, false)), &ch),
         _ => explore::replay(&|| Sys::new(5, true, true), &ch),
     };
